@@ -37,7 +37,7 @@ def bounds(tier):
 
 SH_Q = [[8, 8], [9, 10], [12, 12], [16, 16], [6, 6, 6]]
 SH_T = [[8, 8], [9, 10], [12, 12], [16, 16], [15, 16], [6, 6, 6], [10, 10, 10]]
-CK = [(8, 3), (8, 4), (12, 3), (16, 3), (16, 4), (12, 6), (16, 6), (24, 6), (6, 3), (3, 3), (4, 4), (6, 6)]
+CK = [(8, 3), (8, 4), (12, 3), (16, 3), (16, 4), (12, 6), (16, 6), (24, 6), (6, 3), (3, 3), (4, 4), (6, 6), (6, 1), (8, 2), (1, 1)]
 
 
 def gen_cases(tier, seed):
@@ -217,7 +217,9 @@ def run_case(case, seed):
         if np.abs(first.imag).max() > max(tol, 1e-7) or first.real.min() < -max(tol, 1e-7):
             V("phase-reference", "first coil not real non-negative: max|imag| %.3g, min real %.3g" % (float(np.abs(first.imag).max()), float(first.real.min())))
         # recovery
-        if true is not None and nc >= 4 and len(sh) == 2 and case["calib"] <= min(sh) and 0 < crop < 1:
+        # (a kernel of width 1 or 2 yields maps that are constant / linear across the field of view by construction, so the
+        #  recovery clause - smooth but varying maps - is only meaningful from kernel_width 3 on)
+        if true is not None and nc >= 4 and len(sh) == 2 and case["calib"] <= min(sh) and 0 < crop < 1 and case["kernel"] >= 3:
             rows = (case["calib"] - case["kernel"] + 1) ** len(sh)
             cols = nc * case["kernel"] ** len(sh)
             if rows >= 1.5 * cols:
